@@ -287,6 +287,27 @@ def build():
         lambda a: prs.plotting.similarity_clustermap(a["df"], alpha_column=None, beta_column="cdr3b", meta_columns=["donor"]), canon_fn=_clustermap_canon, slow=True)
     add("similarity_clustermap/norm", "cm_norm", lambda: dict(df=_cm_df(), norm=Normalize(0, 10)), lambda a: prs.plotting.similarity_clustermap(a["df"], norm=a["norm"]),
         canon_fn=_clustermap_canon, slow=True)
+    add("density_scatter/continuous_cbar", "pure", lambda: dict(x=[0.1, 0.4, 0.35, 0.8, 0.82, 0.5], y=[1.0, 0.2, 0.25, 0.9, 0.95, 0.5]),
+        lambda a: prs.plotting.density_scatter(a["x"], a["y"], ax=plt.subplots()[1], bins=5, cbar=True), canon_fn=_scatter_canon)
+    add("label_axes", "pure", lambda: dict(labels=["i", "ii"], kw=dict(fontsize=7)),
+        lambda a: _label_axes_call(a), canon_fn=lambda r: r)
+    add("label_axes/default", "pure", dict, lambda a: _label_axes_call(dict(labels=None, kw={})), canon_fn=lambda r: r)
+    add("seqlogos_vj", "pure", lambda: dict(df=pd.DataFrame(dict(c=["CAF", "CDF", "CAW"], v=["TRBV1", "TRBV2", "TRBV1"], j=["TRBJ1", "TRBJ1", "TRBJ2"]))),
+        lambda a: len(prs.plotting.seqlogos_vj(a["df"], "c", "v", "j")), slow=True)
+    add("clustermap_split", "pure", lambda: dict(lo=pd.DataFrame(np.arange(16.0).reshape(4, 4)), up=pd.DataFrame(np.arange(16.0).reshape(4, 4)[::-1]), ck=dict(label="d")),
+        lambda a: np.asarray(prs.plotting.clustermap_split(a["lo"], a["up"], cbar_kws=a["ck"], figsize=(3, 3)).data2d), slow=True)
+    add("ensure_numpy", "pure", lambda: dict(l=list(SEQS), s=pd.Series(SEQS, index=range(3, 3 + len(SEQS))), a=np.array(SEQS)),
+        lambda a: [prs.util.ensure_numpy(a["l"]), prs.util.ensure_numpy(a["s"]), prs.util.ensure_numpy(a["a"])])
+    add("convert_tuple", "pure", lambda: dict(t=(list(SEQS), list(SEQS[::-1])), l=list(SEQS)),
+        lambda a: [prs.util.convert_tuple_to_dataframe_if_necessary(a["t"]), prs.util.convert_tuple_to_dataframe_if_necessary(a["l"])])
+    add("default_metric_and_format", "pure", lambda: dict(df=_df(), l=list(SEQS)),
+        lambda a: [type(prs.distance.get_default_metric_for_input_data(a["df"])).__name__, type(prs.distance.get_default_metric_for_input_data(a["l"])).__name__,
+                   type(prs.distance.get_default_metric_for_input_data(a["df"][["CDR3B"]])).__name__,
+                   tcr_metric.tcr_metric.is_in_standard_format(a["df"]), tcr_metric.tcr_metric.is_in_standard_format(a["l"])])
+    add("metric_names", "pure", dict, lambda a: [Levenshtein().name, WeightedLevenshtein(1, 2, 3).name, tcr_metric.CdrLevenshtein().name, tcr_metric.BetaCdr3Levenshtein().name,
+                                                Levenshtein().distance_bins.tolist() if hasattr(Levenshtein(), "distance_bins") else None])
+    add("next_nearest_neighbors/3", "pure", lambda: dict(x="AB"), lambda a: prs.next_nearest_neighbors(a["x"], lambda y: prs.hamming_neighbors(y, alphabet="AB"), maxdistance=3))
+    add("pc_joint/gap_token", "pure", lambda: dict(df=_dfg(), d2=_dfg().iloc[::-1]), lambda a: prs.pc_joint(a["df"], ["CDR3B", "v"], a["d2"], gap_token="|"))
     # ---- calls that raise
     add("raise/nearest_neighbor_empty", "raising", lambda: dict(seqs=[]), lambda a: prs.nearest_neighbor(a["seqs"]))
     add("raise/kdtree_ncpu0", "raising", S, lambda a: prs.kdtree(a["seqs"], n_cpu=0))
@@ -295,6 +316,20 @@ def build():
     add("raise/mle_method", "raising", lambda: dict(c=[1, 2, 3]), lambda a: prs.powerlaw_mle_alpha(a["c"], method="bad"))
     add("raise/renyi_base", "raising", lambda: dict(df=_dfg()), lambda a: prs.renyi2_entropy(a["df"], "CDR3B", base=-1))
     return E
+
+
+def _label_axes_call(a):
+    import matplotlib.pyplot as plt
+    import pyrepseq as prs
+    fig, axs = plt.subplots(1, 3)
+    kw = dict(a["kw"])
+    if a["labels"] is None:
+        prs.plotting.label_axes(fig)
+    else:
+        prs.plotting.label_axes(list(axs), labels=a["labels"], labelstyle="(%s)", **kw)
+    out = [[t.get_text() for t in ax.texts] for ax in axs]
+    plt.close(fig)
+    return out
 
 
 def run_entry(entry, seed=None):
